@@ -322,7 +322,7 @@ fn mutations(ty: &str, doc: &Value) -> Vec<(String, Value)> {
                 }
             }
             if let Value::String(sv) = node {
-                for inner in [Value::Table(toml::Table::new()), Value::String("x".into())] {
+                for inner in [Value::Table(toml::Table::new()), Value::Array(vec![]), Value::String("x".into())] {
                     let mut t = toml::Table::new(); t.insert(sv.clone(), inner);
                     let mut d = doc.clone(); *at(&mut d, p) = Value::Table(t); out.push((format!("string-as-table/{zone}"), d));
                 }
